@@ -154,6 +154,65 @@ def ctxt_forwarding(chk, P, prefix, floor):
 
 
 
+def option_ctxt_rules(chk, P, prefix):
+    """`impl Ctxt for Option<C>` (a context that may be absent): each frame operation reaches the inner context's same-named operation once,
+    and enter/exit hand the inner context a borrow *of the caller's frame* - not of a value moved out of it - because the inner exit writes
+    the suspended properties back into that frame for the next entry (a future polled again, a frame entered twice)."""
+    OPT = "core::option::Option<C>"
+    VIEW = ("as_mut", "as_deref_mut", "as_ref", "as_deref", "deref", "deref_mut", "borrow", "borrow_mut")
+
+    def inner_calls(b, name):
+        return [(x, c) for x in [b] + P.closures_of(b) for c in x.calls(normal_only=True)
+                if c.callee.get("name") == name and (c.callee.get("path") or "").startswith("emit_core::ctxt::Ctxt::")]
+
+    def frame_op(name, by_ref):
+        def f():
+            b = P.impl_method(CTXT, OPT, name)
+            cs = inner_calls(b, name)
+            if len(cs) != 1:
+                return False, "Option<C>::%s must call the inner %s at exactly one site, found %d" % (name, name, len(cs)), [], b.span
+            x, c = cs[0]
+            if x.in_cycle(c.bb):
+                return False, "the inner %s sits in a loop" % name, [], c.loc
+            o = x.origin(c.args[1])
+            d = 0
+            while d < 20:
+                d += 1
+                if o[0] in ("field", "downcast", "deref", "ref", "copy", "index"):
+                    o = o[1]
+                    continue
+                if o[0] == "call" and o[1].callee.get("name") in VIEW and o[1].args:
+                    o = x.origin(o[1].args[0])
+                    continue
+                break
+            if common.root_param(P, x, o) != 2:
+                return False, ("Option<C>::%s hands the inner context %s, not %s the caller's frame: what the inner context stores into it on exit "
+                               "(the suspended properties) never reaches the caller, whose frame is left empty for its next entry"
+                               % (name, o_str(x.origin(c.args[1])), "a borrow of" if by_ref else "")), [], c.loc
+            return True, "", [c.loc]
+        return f
+    chk.ob("%s.option:enter" % prefix, "Option<C>::enter enters the caller's frame itself (a place inside the &mut parameter)", frame_op("enter", True))
+    chk.ob("%s.option:exit" % prefix, "Option<C>::exit exits the caller's frame itself (a place inside the &mut parameter)", frame_op("exit", True))
+    chk.ob("%s.option:close" % prefix, "Option<C>::close closes the caller's frame", frame_op("close", False))
+
+    def open_op(name):
+        def f():
+            b = P.impl_method(CTXT, OPT, name)
+            cs = inner_calls(b, name)
+            if len(cs) != 1:
+                return False, "Option<C>::%s must call the inner %s at exactly one site, found %d" % (name, name, len(cs)), [], b.span
+            x, c = cs[0]
+            if common.root_param(P, x, x.origin(c.args[1], through_calls=("by_ref", "borrow", "deref"))) != 2:
+                return False, "the inner %s is given %s, not the caller's props" % (name, o_str(x.origin(c.args[1]))), [], c.loc
+            r = x.origin(0)
+            if not (r[0] == "call" and r[1].bb == c.bb) and not (x is b and ("callsite", c.bb) in common.roots(r)):
+                return False, "the frame opened by the inner %s is not what is returned (%s)" % (name, o_str(r)), [], c.loc
+            return True, "", [c.loc]
+        return f
+    for nm in ("open_root", "open_push", "open_disabled"):
+        chk.ob("%s.option:%s" % (prefix, nm), "Option<C>::%s opens the inner frame over the caller's props and returns it" % nm, open_op(nm))
+
+
 def thread_local_rules(chk, P, prefix):
     """R6-R10: the thread-local context implementation (swap involution, isolation by id, storage, construction of frames)."""
     # ---- R6: enter and exit are the same swap ------------------------------------------------------------------------
@@ -520,6 +579,38 @@ def thread_local_rules(chk, P, prefix):
         return True, "", sorted(users)
     chk.ob("%s.R8:who-touches-active" % prefix, "only current() and swap() reach the thread-local map of active frames", who_touches_active)
 
+    def active_keyed_by_own_id():
+        """The per-thread map is shared by every ThreadLocalCtxt instance on the thread, one entry per instance id.  Whatever current() and swap()
+        do to the map through a mutable borrow is therefore addressed by *their own* id: a map-wide mutation (clear, retain, drain ...) or one
+        keyed by something else edits another instance's active frame."""
+        ev = []
+        for fn in ("swap", "current"):
+            b = P.body(TL + fn)
+            for x in P.closures_of(b):
+                for c in x.calls(normal_only=True):
+                    full = c.callee.get("full") or ""
+                    if not re.match(r"std::collections::hash::map::HashMap::<usize, [\w:]*ThreadLocalCtxtFrame[^>]*>::\w+", full):
+                        continue
+                    a0 = c.args[0]
+                    ty = x.local_ty(a0.get("m", a0.get("c", {})).get("l")) if isinstance(a0, dict) else ""
+                    if not (ty or "").startswith("&mut") and (ty or "").startswith("&"):
+                        continue
+                    key = None
+                    if len(c.args) >= 2:
+                        o = x.origin(c.args[1])
+                        while o[0] in ("ref", "deref", "copy"):
+                            o = o[1]
+                        key = common.root_param(P, x, o)
+                    if key != 1:
+                        return False, ("%s calls `%s` on the thread's map of active frames %s: the map holds every context instance's frame, and only this "
+                                       "instance's own entry (key = its id) may be changed" %
+                                       (fn, c.callee.get("name"), "with key %s" % o_str(x.origin(c.args[1])) if len(c.args) >= 2 else "without a key")), [], c.loc
+                    ev.append(c.loc)
+        if len(ev) < 2:
+            raise mir.AnchorMissing("keyed accesses of the ACTIVE map in swap/current (found %d)" % len(ev))
+        return True, "", ev
+    chk.ob("%s.R8:active-keyed-by-own-id" % prefix, "current() and swap() change the shared per-thread map only at their own id", active_keyed_by_own_id)
+
 
 def run(chk):
     P = mir.Program("K1")
@@ -661,6 +752,7 @@ def run(chk):
     thread_local_rules(chk, P, "C03")
 
     ctxt_forwarding(chk, P, "C03", 28)
+    option_ctxt_rules(chk, P, "C03")
 
     common.arg_agreement_rule(chk, P, "C03", [("emit", "src/frame.rs"), ("emit", "src/platform/thread_local_ctxt.rs"),
                                                ("emit_core", "src/ctxt.rs")], 3)
